@@ -477,8 +477,40 @@ impl SessionManager {
     }
 
     /// The slab is considered at capacity if it contains more sessions than twice max_connections
+    ///
+    /// The historical budget `10 + 2 * max_connections` reserves 10 entries for
+    /// what is not a client session (channel, metrics, timer, listeners). A
+    /// worker with more than that many listeners and a small `max_connections`
+    /// (8 listeners, `max_connections = 1`) sat at "capacity" with no session at
+    /// all: `check_limits` closed the accept gate on the first connection and,
+    /// `decr` never running, it stayed closed for good. Entries that are not
+    /// sessions beyond the 10 reserved no longer count against the sessions'
+    /// budget. They are only counted (one pass over the slab) once the cheap
+    /// test says the slab is that full.
     pub fn at_capacity(&self) -> bool {
-        self.slab.len() >= self.accept_slab_threshold()
+        let threshold = self.accept_slab_threshold();
+        if self.slab.len() < threshold {
+            return false;
+        }
+        let not_sessions = self
+            .slab
+            .iter()
+            .filter(|(_, entry)| {
+                entry.try_borrow().is_ok_and(|e| {
+                    matches!(
+                        e.protocol(),
+                        Protocol::HTTPListen
+                            | Protocol::HTTPSListen
+                            | Protocol::TCPListen
+                            | Protocol::UDPListen
+                            | Protocol::Channel
+                            | Protocol::Metrics
+                            | Protocol::Timer
+                    )
+                })
+            })
+            .count();
+        self.slab.len() >= threshold + not_sessions.saturating_sub(10)
     }
 
     /// The slab fill level at which `at_capacity` flips to true and the
